@@ -70,7 +70,8 @@ Reading given to the Python (see ReaderRt.v for every operation):
               nothing is executed), the code points this function rejects; the
               constants plugin harness/consts/trainer_io.py falls back to it when
               its own shape matcher does not know the way the tests are written.
-  names       a local called `_` is written u_ in the generated text.
+  names       a local called `_` is written u_ in the generated text; a name that would capture a
+              name of the runtime (exc, res, ret, ...) gets the suffix _v.
   __init__    a sequence of `self.a = e` with e a parameter, a constant (int,
               bool, {}), self.b, or exactly
               codecs.open(self.filename, 'r', encoding=self.encoding,
@@ -125,9 +126,18 @@ py_startswith py_endswith py_int py_fromhex py_decode py_encode_check dict_mem f
 exn_is exn_reason codec_none codecs_open_r_surrogateescape out npw nerr rout""".split())
 
 
+def collides(name):
+    """would this source name capture a name of the runtime / of the generated code?"""
+    return name in RESERVED or bool(re.match(r"^(tmp|r|it|exn)\d+$", name)) or name.startswith(("py_", "o_", "set_")) \
+        or name == "u_"
+
+
 def vname(n):
-    """the Gallina name of a Python local (`_` is not a usable binder in Gallina)"""
-    return "u_" if n == "_" else n
+    """the Gallina name of a Python variable: itself, except `_` (not a usable binder: u_) and names that
+    would capture a name of the runtime (suffix _v; a source name that already has this form is refused)"""
+    if n == "_":
+        return "u_"
+    return n + "_v" if collides(n) else n
 
 
 def cstr(s):
@@ -174,11 +184,12 @@ class Base:
             _comment(ast.unparse(node)).split("\n")[0][:100]))
 
     def check_name(self, node, name):
-        if name == "_":        # the throw-away name: written u_ in the generated text
+        if name == "_":
             return
-        if name == "u_" or name in RESERVED or re.match(r"^(tmp|r|it)\d+$", name) or name.startswith("py_") or name.startswith("o_") \
-                or name.startswith("set_") or name.startswith("_") or not name.isidentifier() or not name.isascii():
-            self.fail(node, "the variable name %r collides with the generated code" % name)
+        if not name.isidentifier() or not name.isascii():
+            self.fail(node, "the variable name %r cannot be written in Gallina" % name)
+        if name.endswith("_v") and collides(name[:-2]):
+            self.fail(node, "the variable name %r collides with the renaming of %r" % (name, name[:-2]))
 
     def gensym(self, base):
         self.uid += 1
@@ -236,7 +247,7 @@ class PureFn(Base):
         body = [s for s in self.fn.body if not self.is_docstring(s)]
         text = self.pblock(body, "top", 1)
         out = self.header()
-        out += "Definition py_check_valid (%s : str) : bool :=\n" % self.pw
+        out += "Definition py_check_valid (%s : str) : bool :=\n" % vname(self.pw)
         out += _close(text, ".")
         return out
 
@@ -287,7 +298,7 @@ class PureFn(Base):
                 self.fail(s, "the loop variable %r is reused" % v)
             seq, kind = self.const_seq(s, s.iter, v)
             self.vars[v] = kind
-            out = self.line(ind, "pfor %s (fun %s =>" % (seq, v), s)
+            out = self.line(ind, "pfor %s (fun %s =>" % (seq, vname(v)), s)
             out += _close(self.pblock(s.body, "loop", ind + 1), ") (")
             del self.vars[v]
             out += _close(self.pblock(rest, mode, ind), ")")
@@ -310,14 +321,14 @@ class PureFn(Base):
     def pstr(self, e):
         """a string-valued expression"""
         if isinstance(e, ast.Name) and e.id == self.pw:
-            return e.id
+            return vname(e.id)
         if isinstance(e, ast.Name) and self.vars.get(e.id, (None,))[0] == "char":
-            return e.id
+            return vname(e.id)
         if isinstance(e, ast.Constant) and isinstance(e.value, str):
             return cstr(e.value)
         if isinstance(e, ast.Call) and isinstance(e.func, ast.Name) and e.func.id == "chr" and len(e.args) == 1 and not e.keywords \
                 and isinstance(e.args[0], ast.Name) and self.vars.get(e.args[0].id, (None,))[0] == "int":
-            return "(py_chr %s)" % e.args[0].id
+            return "(py_chr %s)" % vname(e.args[0].id)
         self.fail(e, "unsupported string expression")
 
     def const_seq(self, node, it, v):
@@ -350,16 +361,16 @@ class PureFn(Base):
             self.vars[v] = kind
             body = self.pcond(g.elt)
             del self.vars[v]
-            return "%s (fun %s => %s) %s" % ("existsb" if e.func.id == "any" else "forallb", v, body, seq)
+            return "%s (fun %s => %s) %s" % ("existsb" if e.func.id == "any" else "forallb", vname(v), body, seq)
         if isinstance(e, ast.UnaryOp) and isinstance(e.op, ast.Not):
             if isinstance(e.operand, ast.Name) and e.operand.id == self.pw:
-                return "negb (nonempty %s)" % self.pw
+                return "negb (nonempty %s)" % vname(self.pw)
             return "negb %s" % _paren(self.pcond(e.operand))
         if isinstance(e, ast.BoolOp):
             op = " && " if isinstance(e.op, ast.And) else " || "
             return op.join(_paren(self.pcond(v)) for v in e.values)
         if isinstance(e, ast.Name) and e.id == self.pw:
-            return "nonempty %s" % self.pw
+            return "nonempty %s" % vname(self.pw)
         if isinstance(e, ast.Compare) and len(e.ops) == 1:
             op, l, r = e.ops[0], e.left, e.comparators[0]
             if isinstance(op, (ast.In, ast.NotIn)):
@@ -501,7 +512,8 @@ class InitFn(Base):
             self.fail(self.fn, "first parameter is not self")
         self.params = dict(zip(names[1:], [STR, CODEC, BOOL]))
         out = self.header()
-        out += "Definition py_init (%s : str) (%s : codec) (%s : bool) (opened : list rline) : robj :=\n" % tuple(names[1:])
+        out += "Definition py_init (%s : str) (%s : codec) (%s : bool) (opened : list rline) : robj :=\n" % tuple(
+            vname(n) for n in names[1:])
         out += self.line(1, "let self := obj_new in")
         assigned = []
         for s in self.fn.body:
@@ -533,7 +545,7 @@ class InitFn(Base):
 
     def value(self, e, assigned):
         if isinstance(e, ast.Name) and e.id in self.params:
-            return e.id, self.params[e.id]
+            return vname(e.id), self.params[e.id]
         sa = self.selfattr(e, assigned)
         if sa:
             return sa
@@ -737,7 +749,7 @@ class GenFn(Base):
         if isinstance(s, ast.Raise):
             if s.exc is not None or s.cause is not None or not self.handler_var:
                 self.fail(s, "only a bare `raise` inside a handler is supported")
-            return self.line(ind, "raise %s" % self.handler_var[-1], s)
+            return self.line(ind, "raise %s" % vname(self.handler_var[-1]), s)
         self.fail(s, "unsupported statement")
 
     in_loop = 0
@@ -809,12 +821,12 @@ class GenFn(Base):
             out = self.line(ind, "try_catch (", s)
             t1, e1 = self.block(s.body, env, ind + 1)
             out += _close(t1, ")")
-            hv = h.name or self.gensym("_exn")
+            hv = h.name or self.gensym("exn")
             if h.name:
                 self.check_name(h, h.name)
                 if h.name in env.scoped:
                     self.fail(h, "the exception variable %r shadows another one" % h.name)
-            out += self.line(ind, "%s (fun %s =>" % (cls, hv), h)
+            out += self.line(ind, "%s (fun %s =>" % (cls, vname(hv)), h)
             # what the body assigned before raising is unknown: only what was assigned before the try counts
             env_h = env.copy()
             env_h.scoped[hv] = EXN
@@ -1000,7 +1012,7 @@ class GenFn(Base):
         """-> (pure text, type); computations that raise / read the object are bound in self.pre"""
         if isinstance(e, ast.Name):
             if e.id in env.scoped:
-                return e.id, env.scoped[e.id]
+                return vname(e.id), env.scoped[e.id]
             if e.id in self.frame:
                 if e.id not in env.assigned:
                     self.fail(e, "%r may be read before it is assigned" % e.id)
